@@ -68,6 +68,8 @@ func fixedPrograms() []drive.Program {
 		nav(drive.Decision{Act: 2, K: 2}, drive.Decision{Act: 1}),                   //
 		nav(drive.Decision{Act: 0, Refused: 1 | 2 | 4 | 8}),                         // plain traversal with refused calls everywhere
 		nav(drive.Decision{Act: 0, Refused: 16}),                                    // every wrong accessor
+		nav(drive.Decision{Act: 0, Refused: 32}),                                    // every value read twice, descriptive calls repeated
+		nav(drive.Decision{Act: 0, Refused: 32 | 16}, drive.Decision{Act: 2, K: 2}), //
 		nav(drive.Decision{Act: 2, K: 1, Refused: 1 | 4 | 8 | 16}),                  //
 		nav(drive.Decision{Act: 1, Refused: 1 | 2 | 4}),                             //
 		nav(drive.Decision{Act: 0}, drive.Decision{Act: 0}, drive.Decision{Act: 1}), //
